@@ -259,7 +259,7 @@ NOT_APPLICABLE['C16'] = ('concurrency (interleavings of threads sharing a Source
 NOT_COVERED = {
     'C15': ['the sequential reading of Mutex / AtomicUsize is an assumption (R-seq); threads are C16', 'SourceView::from_string / clone (other constructors), Lines as an Iterator impl (verified as the inherent method, R-trait-inherent)', 'the unsafe lifetime extension of cached lines'],
     'C17': ['SourceMapIndex::get_original_function_name (index lookup, proved in C08, then the same walk; known finding D18 lives there): not under contract; DecodedMap::get_original_function_name is under contract as a dispatch (u8); the bounded stand-in function_name covers SourceView::, SourceMap:: and SourceMapIndex::get_original_function_name', 'token columns that fall inside a surrogate pair (outside the precondition `aligned`): bounded only', 'std\'s Take / Peekable adapters (assumed contract over the walker\'s proved contract)'],
-    'C18': ['how BufReader::lines cuts bytes into lines (std; assumed -- exercised by the bounded stand-in discover incl. texts larger than any buffer)', 'that the base64 reader (data_encoding) inverts the base64 writer (base64_simd) -- an assumption between two dependencies, exercised by the bounded stand-in discover; on it, to_data_url and decode_data_url are proved to fit together (the preamble written is one the reader accepts; lemma_own_data_url_decodes_to_the_json_text)', 'that serde writes a key exactly for a field with a value (serde layer): bounded (header, discover); on that, every document as_raw_sourcemap may return is accepted by the detection rule (lemma_written_documents_are_recognised, u24), and the predicates themselves are under contract (u21)'],
+    'C18': ['SourceMapRef::resolve / resolve_path (joining the discovered URL with the file location): not part of the statement, not under contract', 'how BufReader::lines cuts bytes into lines (std; assumed -- exercised by the bounded stand-in discover incl. texts larger than any buffer)', 'that the base64 reader (data_encoding) inverts the base64 writer (base64_simd) -- an assumption between two dependencies, exercised by the bounded stand-in discover; on it, to_data_url and decode_data_url are proved to fit together (the preamble written is one the reader accepts; lemma_own_data_url_decodes_to_the_json_text)', 'that serde writes a key exactly for a field with a value (serde layer): bounded (header, discover); on that, every document as_raw_sourcemap may return is accepted by the detection rule (lemma_written_documents_are_recognised, u24), and the predicates themselves are under contract (u21)'],
     'C19': ['the std adapter chains inside make_relative_path are behind assumed contracts (split/filter/collect, sort_by_key, repeat/take/collect, join); the bounded stand-in relpath exercises the real ones', 'find_common_prefix (the rewrite "~" option): not part of C19'],
     'C20': ['scroll::Pread internals and the derive(Pread) expansion (assumed contracts; exercised by the bounded stand-in ram_bundle)', 'UnbundleRamBundle (file-system based variant)', 'split_ram_bundle / SplitRamBundleModuleIter (composition with flatten and SourceMapBuilder)', 'that Iterator::next of RamBundleModuleIter is the inherent body verified here (R-trait-inherent: same text, emitted outside the trait impl)'],
     'C10': ['inputs with an empty stretch (two tokens at one position, column u32::MAX): the exactly-one-token clause is conditional on non-empty stretches (known finding D10 lives there); bounded stand-in adjust_dups', 'positions >= 2^30 (`as i32` arithmetic): outside the precondition'],
